@@ -46,7 +46,7 @@ func VerifC01NestedItems() {
 	op.Parameters = []spec.Parameter{p}
 	op.Responses = vOKResponses()
 	vAddOp(sw, "GET", "/x", op)
-	app, err := vAppGenerator(sw).makeCodegenApp()
+	app, err := vPlanApp(sw)
 	vAssert(err == nil, "makeCodegenApp failed")
 	if err != nil {
 		return
@@ -180,7 +180,7 @@ func VerifC01ParamNames() {
 		op.Parameters = append(op.Parameters, p)
 	}
 	vAddOp(sw, "GET", "/x", op)
-	app, err := vAppGenerator(sw).makeCodegenApp()
+	app, err := vPlanApp(sw)
 	vAssert(err == nil, "makeCodegenApp failed")
 	if err != nil {
 		return
